@@ -188,6 +188,41 @@ func main() {
 		}(ci, ch)
 	}
 	wg.Wait()
+	// phase 2: whole blocks from a Byzantine proposer, each with one malformed part
+	// (the C02 mutant list): neither a panic nor a stall is acceptable
+	var blockScs []*consnet.Scenario
+	type site struct {
+		byz    int
+		height int64
+	}
+	for _, st := range []site{{0, 1}, {1, 2}} {
+		for _, mut := range consnet.BlockMutations(st.height) {
+			blockScs = append(blockScs, &consnet.Scenario{ID: len(blockScs), Powers: []int64{1, 1, 1, 1}, Byz: st.byz, Heights: st.height + 1, Mode: "nohash",
+				Rules: []consnet.Rule{{Kind: "byz-mutate", Height: st.height, Round: 0, Alt: mut}}})
+		}
+	}
+	blockDeaths := 0
+	consnet.RunPool(blockScs, consnet.PoolOpts{WorkBase: run.WorkDir() + "/blocks"}, func(o consnet.CaseOutcome) {
+		total++
+		mut := o.Sc.Rules[0].Alt
+		classes.Add("block|" + mut)
+		if o.Died && o.PanicLine != "" {
+			blockDeaths++
+			run.Report(map[string]string{"kind": "node-goroutine-panic", "site": o.PanicSite, "type": "Block", "field": strings.TrimSuffix(mut, "+fix")}, o.Sc,
+				fmt.Sprintf("a block from the round's (Byzantine) proposer with mutation %q ==> %s (site %s)", mut, o.PanicLine, o.PanicSite))
+			return
+		}
+		if o.Res == nil {
+			unfinished++
+			return
+		}
+		for _, v := range o.Res.Viols {
+			if v.Prop == "C12" {
+				v.Sig["after"] = "mutant-block"
+				run.Report(v.Sig, o.Sc, "after a malformed block the network no longer terminates: "+v.Detail)
+			}
+		}
+	})
 	if len(notTriggered) > 0 {
 		core.Fatal("receiver states never reached: %v", notTriggered)
 	}
@@ -195,12 +230,14 @@ func main() {
 	run.Finish(core.Coverage{
 		"evaluations":                total,
 		"distinct_nontrivial":        classes.Len(),
-		"rule":                       "receiver = one real ConsensusState in each of 8 states (start, Propose without proposal, proposal without block, Prevote, Precommit, Commit waiting for the block, locked in round 1, NewHeight of height 2); inputs through the real ConsensusReactor.Receive: every one of the 9 registered consensus messages (valid instance taken from the live execution or signed by the Byzantine validator) with every exported field, recursively, set in turn to each boundary value (15 integers, 5 byte-slice shapes, 3 bit-array shapes, nil pointers, 3 signature shapes), each also re-signed by the Byzantine validator where it is the legitimate signer; every valid message on every wrong channel; every single-byte substitution {00,01,7f,80,ff} and every truncation of every valid encoding; every 1-byte string on every channel (thorough: every 2-byte string). distinct_nontrivial = distinct (state, message type) classes exercised",
+		"rule":                       "receiver = one real ConsensusState in each of 8 states (start, Propose without proposal, proposal without block, Prevote, Precommit, Commit waiting for the block, locked in round 1, NewHeight of height 2); inputs through the real ConsensusReactor.Receive: every one of the 9 registered consensus messages (valid instance taken from the live execution or signed by the Byzantine validator) with every exported field, recursively, set in turn to each boundary value (15 integers, 5 byte-slice shapes, 3 bit-array shapes, nil pointers, 3 signature shapes), each also re-signed by the Byzantine validator where it is the legitimate signer; every valid message on every wrong channel; every single-byte substitution {00,01,7f,80,ff} and every truncation of every valid encoding; every 1-byte string on every channel (thorough: every 2-byte string); plus every single-mutation block of the C02 list proposed by the round's Byzantine proposer. distinct_nontrivial = distinct (state, message type) classes exercised",
 		"executions":                 executions,
 		"rejected_state_unchanged":   rejected,
 		"accepted_state_changed":     accepted,
 		"panics_contained_in_receive": contained,
 		"node_goroutine_deaths":      deaths,
+		"malformed_blocks_proposed":  len(blockScs),
+		"malformed_block_deaths":     blockDeaths,
 		"chains_cut_by_deadline":     unfinished,
 		"cases_by_message_type":      byType,
 		"exhaustive":                 unfinished == 0,
